@@ -438,8 +438,13 @@ def case_explicit(ctx, c):
     name = ACCEPT_RNG[c % len(ACCEPT_RNG)]
     wseed = int(g.integers(2 ** 31)); k = int(g.integers(2 ** 31))
     kind = "Generator" if g.random() < 0.6 else "RandomState"
+    if name in GAS and g.random() < 0.3:
+        kind = "Generator whose next output word is zero"     # a genuine PCG64 state: whatever is derived from the first draw (e.g. a seed) is 0
 
     def mk():
+        if kind.endswith("zero"):
+            from pbmon.gen.advrng import crafted_generator
+            return crafted_generator("zero", k % 100000)
         return numpy.random.Generator(numpy.random.PCG64(k)) if kind == "Generator" else numpy.random.RandomState(k)
     ctx.case("explicit:" + name, name, k, kind)
     res = []
@@ -468,7 +473,7 @@ def case_explicit(ctx, c):
         untouched.append(u1 and gstate() == s0)
         res.append(dig((r, r2, tail)))
     site = site_of(name)
-    gacls = "explicit generator" + ("/subset size at a boundary of the candidate set" if "/" in name else "")
+    gacls = "explicit generator" + ("/subset size at a boundary of the candidate set" if "/" in name else "") + ("/next output word zero" if kind.endswith("zero") else "")
     ctx.check("C08.explicit.depends", res[0] == res[1], site, "result depends only on the supplied generator", kind if name not in GAS else gacls,
               what="%s: same explicit generator state, different global seeds -> different outputs" % site,
               witness={"component": name, "rng": kind, "state": k, "digests": res}, coords=[c, "explicit"])
